@@ -77,6 +77,9 @@ def _systems(rng, n):
         stim = [{"type": "poisson_generator", "rate": str(rng.choice([200., 500., 1000.])), "variables": targets}]
         if rng.random() < 0.4:
             stim.append({"type": "regular", "rate": str(rng.choice([50., 100.])), "variables": [var]})
+        if rng.random() < 0.4:
+            # a few precisely timed extra spikes on a variable that an earlier entry already drives
+            stim.append({"type": "list", "list": " ".join(rng.sample(["1E-3", "4E-3", "11E-3", "0.0175"], rng.choice([1, 2, 3]))), "variables": [var]})
         base["stimuli"] = stim
         base["options"] = {"sim_time": rng.choice([0.02, 0.05]), "max_step_size": 0.005}
         # analysis() offers no way to choose the seed (`random_seed` is not an accepted option key), so the
@@ -375,6 +378,26 @@ def run(ctx, driver):
             if len(r["trains"]) != 2:
                 ctx.fail("benchmark-protocol", indict, {"expected": "two stimulus generations per check", "observed": len(r["trains"]), "signature": sigbase})
                 continue
+            # both candidates must be benchmarked on the stimulus the input SPECIFIES: every time a list entry names and every multiple of a regular
+            # entry's period (up to sim_time) is delivered to each of its targets, whatever other entries drive the same variable
+            T_ = float(case["indict"]["options"]["sim_time"])
+            marker_ = case["indict"].get("options", {}).get("differential_order_symbol", "__d")
+            missing = None
+            for st_ in case["indict"]["stimuli"]:
+                if st_["type"] == "list":
+                    want_t = [float(x) for x in st_["list"].split() if float(x) <= T_]
+                elif st_["type"] == "regular":
+                    per = 1.0 / float(st_["rate"])
+                    want_t = [k_ * per for k_ in range(1, int(T_ / per) + 1) if k_ * per <= T_]
+                else:
+                    continue
+                for v_ in st_["variables"]:
+                    got_t = r["trains"][0].get(v_.replace("'", marker_), [])
+                    lost = [x for x in want_t if not any(abs(x - y) <= 1e-9 * max(1.0, abs(x)) for y in got_t)]
+                    if lost and missing is None:
+                        missing = {"stimulus": st_, "variable": v_, "specified_but_not_delivered": lost[:5], "delivered": len(got_t)}
+            if missing:
+                ctx.fail("benchmark-not-on-the-specified-stimulus", indict, {"observed": missing, "signature": dict(sigbase, what="specified spikes missing")})
             if r["trains"][0] != r["trains"][1]:
                 k = next(k for k in r["trains"][0] if r["trains"][0][k] != r["trains"][1].get(k))
                 ctx.fail("benchmark-different-stimulus", indict,
